@@ -79,9 +79,11 @@ CLAIMED = {
         "followed by a permitted byte is one longest match by the expected rule; vm_compute certificate + soundness "
         "proof, transported to the automaton by the C18 equivalence); a string literal as the writer escapes it is read "
         "back byte for byte for every string over bytes 1..255 (induction through the STRING start condition); a float "
-        "rendering of format_double's syntax is read as strtod of that text; runs of such steps are what lex_buf "
-        "computes. NOT proved: the assembly over a whole tree through the parser (read(write c) equivalent to c, second "
-        "write identical). That end-to-end statement is decided on every run on the real library: rtrip = write, "
+        "rendering of format_double's syntax is read as strtod of that text; and assembled over the whole tree "
+        "(C01_written_text_tokens): for every writable tree and every option/tab/precision/format vector the scanner "
+        "reads the text of config_write as exactly the token stream of its pieces followed by end of input (adjacency "
+        "invariant by induction over the tree). NOT proved: the parser half (that token stream is parsed back into an "
+        "equivalent tree) and hence read(write c) equivalent to c with an identical second write. That end-to-end statement is decided on every run on the real library: rtrip = write, "
         "read_string into a second configuration, dump, write again, over API-built and parsed trees x option vectors, "
         "compared with the model line by line and, model-free, with the property's equivalence, an independent printf "
         "rendering and the reference parser.",
